@@ -16,16 +16,19 @@
         C06_dedent_ends_block       the offside parser inverts the layout printer on every valid layout.
 
     [_partial]: (c) covers blocks, let (right-hand side on the same or a later line, at any column), local
-    and root function definitions (body on the same or a later line), multi-line if/elif/else chains (else
-    body on the same or a later line; 'else'/'elif' at any column left of the preceding block), the one-line
-    if-then-else, union matches (arm bars at any columns inside the offside line and left of the previous
-    body, bodies on the same or a later line, a trailing default arm), chains of binary operators with a
+    and root function definitions (body on the same or a later line), multi-line if/elif/else chains with or
+    without else (else body on the same or a later line; 'else'/'elif' at any column left of the preceding
+    block, which must not itself end in an if without else), the one-line if-then[-else], union matches (arm
+    bars at any columns inside the offside line and left of the previous body, bodies on the same or a later
+    line, a trailing default arm), string matches (literal rules and the closing variable rule at any column
+    left of the previous body - they are not tested against the offside line -, the default rule inside it),
+    chains of binary operators with a
     line break before any operator (|> included) at any column, lambdas in parentheses (body on the same
     or a later line, ')' also on a line of its own), any number of extra EOL tokens (blank lines, comment
     lines, trailing comments) at every line end, statements after the first of a block at any column that
     is not left of the block and left of what the previous statement left open.
-    Outside (c) (modelled by parse_blocks, exercised by the harness, not proved): if without else, string
-    matches, parenthesised sub-expressions and tuples, record/slice literals, let destructuring, type
+    Outside (c) (modelled by parse_blocks, exercised by the harness, not proved): parenthesised
+    sub-expressions and tuples, record/slice literals, let destructuring, type
     definitions and package/import lines, and distinct columns for the tokens that are neither first on
     their line nor the first token of a same-line body (they share one arbitrary column [inner]).
 
@@ -89,7 +92,8 @@ Print Assumptions C06_block_layout_invariance.
 
 (** conversely: a line whose first token stands strictly left of a block ends the block right there *)
 Theorem C06_dedent_ends_block : forall inner b off k t c' r,
-  wf_block off b -> end_of_term k = true -> skip_eol k = (t, c') :: r -> is_binop t = false -> c' < bcol b ->
+  wf_block off b -> end_of_term k = true -> nohd_else k -> skip_eol k = (t, c') :: r -> is_binop t = false ->
+  (block_io b = true -> noelse t) -> c' < bcol b ->
   exists n0, forall n, n0 <= n -> p_block n off (r_block inner b ++ k) = Ok (er_block b, (t, c') :: r).
 Proof. exact dedent_ends_block. Qed.
 Print Assumptions C06_dedent_ends_block.
